@@ -14,14 +14,15 @@
 EXTENDS Interval, TLC
 VARIABLES s, st
 S8 == -128..127
+Grid == {-128, -127, -65, -64, -2, -1, 0, 1, 2, 63, 64, 126, 127}
 Init == s \in S8 /\ st = 0
+InitQ == s \in (Grid \cup {v \in S8 : v % 8 = 5}) /\ st = 0          \* quick tier: 45 starts
 Next == st < 9 /\ st' = st + 1 /\ s' = s
 Bv(v, w) == BvFromInt(v, w)
 St8(n) == BvFromNat(n, 8)
 Iv(a, b, c, w) == [w |-> w, s |-> Bv(a, w), e |-> Bv(b, w), st |-> St8(c)]
 \* admissible ends for (s, st): at most 8 members
 Ends == IF st = 0 THEN {s} ELSE {s + k * st : k \in 1..7} \cap S8
-Grid == {-128, -127, -65, -64, -2, -1, 0, 1, 2, 63, 64, 126, 127}
 Explicit(a, b, c) == IF c = 0 THEN {a} ELSE {a + k * c : k \in 0..((b - a) \div c)}
 
 GammaAgree == \A e \in Ends :
@@ -46,7 +47,7 @@ TopAll ==
    /\ IvConst(Bv(s, 1)) = Iv(s, s, 0, 1) /\ WellFormed(IvConst(Bv(s, 8)))
 \* the same interval sign-extended to 8 bytes and shifted far away from zero (carries through limbs)
 Far == <<0, 0, 0, 0, 1, 0, 0, 0>>                                      \* 2^32
-Wide == s \in Grid => \A e \in Ends :
+WideOn(SS) == s \in SS => \A e \in Ends :
    LET x == Iv(s, e, st, 8)  G == Explicit(s, e, st)
        y == [x EXCEPT !.s = BvSub(@, Far), !.e = BvSub(@, Far)]
        big == [w |-> 8, s |-> Bv(s, 8), e |-> BvAdd(Bv(s, 8), BvMul(St8(7), <<0, 0, 0, st, 0, 0, 0, 0>>)),
@@ -59,24 +60,30 @@ Wide == s \in Grid => \A e \in Ends :
       /\ (st > 0 => /\ InGamma(big.e, big) /\ ~InGamma(BvAdd(big.s, St8(st)), big)
                     /\ IvCount(big) = St8(7)
                     /\ Cardinality(Members(big, 5)) = 8 /\ \A m \in Members(big, 5) : InGamma(m, big))
+Wide == WideOn(Grid)
+WideQ == st \in {0, 1, 3, 8} => WideOn({-128, -1, 0, 127})     \* quick tier
 \* the byte-wise fast paths of division / divisibility against the bitwise reference of BV.tla
-DivAgree == s \in {-128, -1, 0, 77, 127} =>
+DivAgreeOn(SS) == s \in SS =>
    \A b \in {St8(st + 1), <<0, 0, 0, st + 1, 0, 0, 0, 0>>, <<st + 1, 0, 0, 0, 1, 0, 0, 0>>, <<0, 0, 96 + st, 0, 0, 0, 0, 0>>} :
    \A a \in {Bv(s, 8), <<s % 256, 1, 2, 3, 4, 5, 6, 7>>, BvMul(b, <<(s + 128) % 256, 3, 0, 0, 0, 0, 0, 0>>), <<0, 0, 0, s % 256, 0, 0, 0, 0>>} :
       /\ BvUDivFast(a, b) = BvUDiv(a, b)
       /\ BvDivides(b, a) <=> BvIsZero(BvURem(a, b))
+DivAgree == DivAgreeOn({-128, -1, 0, 77, 127})
+DivAgreeQ == st \in {0, 2, 7} => DivAgreeOn({-1, 77})
 \* sampling of long intervals: only members, both ends, the members around zero
-Sampled == s % 4 = 0 =>
+SampledOn(k) == s % k = 0 =>
    LET lo == Bv(s * 1000 - 50000, 8)
        x == [w |-> 8, s |-> lo, e |-> BvAdd(lo, BvMul(St8(st + 1), St8(30000))), st |-> St8(st + 1)]
        M == Members(x, s + 128 + st)
    IN /\ WellFormed(x)
       /\ \A m \in M : InGamma(m, x)
-      /\ x.s \in M /\ x.e \in M /\ Cardinality(M) >= 12
+      /\ x.s \in M /\ x.e \in M /\ Cardinality(M) >= 8
       /\ (BvSign(x.s) = 1 /\ BvSign(x.e) = 0 =>
             \E m \in M : BvSign(m) = 0 /\ BvToNat(m) < st + 1 /\ BvSub(m, St8(st + 1)) \in M)
       /\ ~IvIsAll(x) /\ Subset(x, IvTop(8), 3) /\ ~Subset(IvTop(8), x, 3) /\ GammaEq(x, x, 4)
       /\ \A m \in Members(IvTop(8), st) : Len(m) = 8
+Sampled == SampledOn(4)
+SampledQ == SampledOn(32)
 \* Subset / GammaEq against the set definitions (1 byte), partner intervals [t, t+3d] stride d
 Incl == \A e \in Ends : \A t \in {s - 1, s, s + 1} \cap S8 : \A d \in {0, 1, st, 2 * st} :
    LET x == Iv(s, e, st, 1)
